@@ -50,6 +50,7 @@ def run(ctx):
         obs += ctx.go_run(br, "^TestVerifC17Concurrent$", out="obs_c.ndjson", timeout_s=2400)
         bs = ctx.go_build("./split-car-fetcher", ov, name="scf")
         obs += ctx.go_run(bs, "^TestVerifC17ReadAt$", out="obs_r.ndjson")
+        obs += ctx.go_run(bs, "^TestVerifC17HTTP$", out="obs_http.ndjson")
     rejected = ctx.r4_judge(["RangeCacheAbs", "Trace_RangeCache"], "Trace_RangeCache", obs, chunk=5000)
     for o in obs:
         key = sha([o["kind"], o["size"], [(c["op"], c["s"], c["l"], c["up"]) for c in o["calls"]]])
